@@ -105,7 +105,13 @@ def gen(chk):
                       ('"ab"', '.len'), ('"12"', '.I'), ('"1.5"', '.F'), ('"ab"', '.sym?'), ('65', '.chr'), ('4', '.even?'), ('4', '.odd?'),
                       ('2', '.floor'), ('5', '.between?(0, 9)'), ('"a"', '.ord'), ('"abc"', '.rev'), ('3', '.sqrt'), ('3', '.-%'),
                       ('"x"', '.*(3)'), ('[1]', '.+([2])'), ('7', '.%(4)'), ('1', '.F'),
-                      ('[1, 2]', '.join(",").len'), ('[1, 2]', '.rev.join("-").uc'), ('"a-b"', '.uc.lc.len')):
+                      ('[1, 2]', '.join(",").len'), ('[1, 2]', '.rev.join("-").uc'), ('"a-b"', '.uc.lc.len'),
+                      # every further built-in / native property name of arr, str, int, float, range, map that is forwarded on the unchanged tree
+                      ('[3, 1, 2]', '.T'), ('[3, 1, 2]', '.grep'), ('[[7]]', '.unwrap'), ('"ab c"', '.camel'), ('"ab c"', '.camel?'), ('"ab c"', '.capital'),
+                      ('"ab c"', '.dedent'), ('"ab c"', '.kebab'), ('"ab c"', '.kebab?'), ('"ab c"', '.lc?'), ('"ab c"', '.pascal'), ('"ab c"', '.pascal?'),
+                      ('"ab c"', '.snake'), ('"ab c"', '.snake?'), ('"ab c"', '.split'), ('"ab c"', '.trim'), ('"ab c"', '.truncate'), ('"ab c"', '.uc?'),
+                      ('6', '.prime?'), ('6', '.clip'), ('2.5', '.sqrt'), ('(1:4)', '.counter?'), ('(1:4)', '.dec?'), ('(1:4)', '.inc?'), ('(1:4)', '.start'),
+                      ('(1:4)', '.step'), ('(1:4)', '.stop'), ('%{1: 2}', '.len')):
         chains.append(("named-step", st, start))
     # names that Obj itself defines (S, p, keys ...) answer for the Either, not for the wrapped value: recorded finding
     for st in ('.S(base: 2)', '.p(end: "!")', '.keys'):
